@@ -13,10 +13,10 @@ VERIF = os.path.dirname(os.path.dirname(os.path.abspath(__file__)))
 COQ = os.path.join(VERIF, "coq")
 HARNESS = os.path.join(VERIF, "harness")
 BUILD = os.path.join(VERIF, "build")
-REPO = "/repo"
+REPO = os.environ.get("VERIF_REPO", "/repo")
 
 GOENV = dict(os.environ, GOFLAGS="-mod=mod", GOPROXY="off", GOSUMDB="off",
-             GOTOOLCHAIN="local", CGO_ENABLED="0")
+             GOTOOLCHAIN="local", CGO_ENABLED="0", VERIF_REPO=REPO)
 
 FORBIDDEN = re.compile(
     r"\b(Admitted|admit|Axiom|Axioms|Parameter|Parameters|Conjecture|Conjectures|Abort All|"
@@ -159,7 +159,14 @@ def build_harness(name, tags="verif"):
     shutil.copyfile(os.path.join(REPO, "go.sum"), os.path.join(HARNESS, "go.sum")) \
         if not os.path.exists(os.path.join(HARNESS, "go.sum.extra")) else merge_gosum()
     exe = os.path.join(BUILD, name)
-    rc, out = sh(["go", "build", "-tags", tags, "-o", exe, "./cmd/" + name], cwd=HARNESS, env=GOENV, timeout=1200)
+    cmd = ["go", "build", "-tags", tags, "-o", exe]
+    if REPO != "/repo":
+        # development against a scratch worktree of the repository
+        alt = os.path.join(BUILD, "alt.mod")
+        open(alt, "w").write(open(os.path.join(HARNESS, "go.mod")).read().replace("=> /repo", "=> " + REPO))
+        shutil.copyfile(os.path.join(HARNESS, "go.sum"), os.path.join(BUILD, "alt.sum"))
+        cmd += ["-modfile", alt]
+    rc, out = sh(cmd + ["./cmd/" + name], cwd=HARNESS, env=GOENV, timeout=1200)
     if rc != 0:
         raise BuildError("go build of harness %s against /repo failed:\n%s" % (name, out[-4000:]))
     return exe
@@ -236,10 +243,11 @@ def case_term(out, st, idx):
 # ---------------------------------------------------------------- findings
 
 def load_known():
-    path = os.path.join(VERIF, "known_findings.json")
-    if not os.path.exists(path):
-        return []
-    return json.load(open(path))["findings"]
+    out = []
+    import glob
+    for path in sorted(glob.glob(os.path.join(VERIF, "known_findings", "C*.json"))):
+        out += json.load(open(path))["findings"]
+    return out
 
 
 def write_replay(prop, seed, k, payload):
